@@ -259,6 +259,15 @@ def build():
             dm = I.force(I.read_field(this, "delay")).ref
             return VBool(delay_present(I, dm, name))
         return h
+    def untouched(name):
+        def h(I):
+            """no add/reset/remove of this delay on the path (an already running one keeps its deadline)"""
+            this = I.frames[0].env["self"].ref
+            dm = I.force(I.read_field(this, "delay")).ref
+            p = I.force(I.read_field(dm, "pending"))
+            return VBool(I.container(p.ref).get(name) is None)
+        return h
+    C.helpers["limit_delay_untouched"] = untouched("enable_limit_reached")
     C.helpers["limit_delay_pending"] = pending("enable_limit_reached")
     C.helpers["timed_disable_pending"] = pending("timed_disable")
 
@@ -281,7 +290,9 @@ def build():
              ("hold_power verified", "0 < hold_power <= %s" % lh)],
          ensures=[("hardware enabled", "issued_hw_enable()"),
                   ("max_hold_duration => switch-off scheduled",
-                   "implies(self.config['max_hold_duration'], limit_delay_pending())")],
+                   "implies(self.config['max_hold_duration'], limit_delay_pending())"),
+                  ("a switch-off that is already scheduled is not pushed back by enabling again",
+                   "implies(old(limit_delay_pending()), limit_delay_untouched())")],
          modifies=["self.delay.pending"], raises={})
 
     C.fn("Driver._enable_limit_reached", requires=["self.hw_driver is not None"], emits=emits("hw.disable"),
